@@ -3,6 +3,7 @@
    observable.  Used identically by the extracted OCaml driver and by the
    in-Coq vm_compute evaluation. *)
 From Lungo.Model Require Import Compare.
+From Lungo.Model Require Import EngineRun.
 Open Scope string_scope.
 
 Definition bad : string := "BAD-CASE".
@@ -25,6 +26,7 @@ Definition run_cmp (x : sexp) : option string :=
 
 Definition runners : list (sexp -> option string) :=
   [ run_cmp
+  ; run_engine
   ].
 
 Fixpoint first_some (rs : list (sexp -> option string)) (x : sexp) : string :=
